@@ -132,6 +132,36 @@ Proof.
   repeat (destruct Hin as [Hin|Hin]; [injection Hin as _ <-; lia|]). destruct Hin.
 Qed.
 
+(* cells as triples *)
+Definition cell3_eqb (x y : Z * Z * Z) : bool :=
+  let '(a, b, c) := x in let '(a', b', c') := y in (a =? a')%Z && (b =? b')%Z && (c =? c')%Z.
+Lemma cell3_eqb_spec x y : cell3_eqb x y = true <-> x = y.
+Proof.
+  destruct x as [[a b] c], y as [[a' b'] c']. unfold cell3_eqb. rewrite !andb_true_iff, !Z.eqb_eq.
+  split; [intros [[-> ->] ->]; reflexivity|intro H; injection H as -> -> ->; auto].
+Qed.
+Lemma distinct_cells_FOP l : distinct_cells l = true -> ForallOrdPairs (fun x y => x <> y) l.
+Proof.
+  induction l as [|[[a b] c] l IH]; intro H; cbn [distinct_cells] in H; [constructor|]. apply andb_true_iff in H. destruct H as [H1 H2].
+  constructor; [|apply IH; exact H2]. apply Forall_forall. intros y Hy E. subst y. apply negb_true_iff in H1.
+  assert (existsb (fun x : Z * Z * Z => let '(a', b', c') := x in (a =? a')%Z && (b =? b')%Z && (c =? c')%Z) l = true); [|congruence].
+  apply existsb_exists. exists (a, b, c). split; [exact Hy|]. rewrite !Z.eqb_refl. reflexivity.
+Qed.
+Lemma FOP_distinct_cells l : ForallOrdPairs (fun x y => x <> y) l -> distinct_cells l = true.
+Proof.
+  induction 1 as [|[[a b] c] l Ha _ IH]; [reflexivity|]. cbn [distinct_cells]. rewrite IH, andb_true_r. apply negb_true_iff.
+  destruct (existsb _ l) eqn:E; [|reflexivity]. exfalso. apply existsb_exists in E. destruct E as [[[a' b'] c'] [Hy Hc]].
+  rewrite !andb_true_iff, !Z.eqb_eq in Hc. destruct Hc as [[-> ->] ->]. rewrite Forall_forall in Ha. apply (Ha _ Hy). reflexivity.
+Qed.
+
+Lemma wbeat_le m n r r' : (0 < n)%Z -> (r <= r')%Z -> wbeat m n r <= wbeat m n r'.
+Proof.
+  intros Hn Hr. destruct (Z.eq_dec r r') as [->|Hne]; [apply Qle_refl|]. apply Qlt_le_weak. apply wbeat_lt; [exact Hn|lia].
+Qed.
+
+(* two notes differ in column or in time *)
+Definition keys_differ (x y : note4) : Prop := ~ (fst (fst x) = fst (fst y) /\ snd (fst x) == snd (fst y)).
+
 (* ---------------------------------------------------------------- one chart *)
 Section ChartThm.
   Variable cf : smconf.
@@ -145,15 +175,14 @@ Section ChartThm.
   Hypothesis Hsc : Forall2 bcs_eqv script l.
   Hypothesis Hb0 : beat0 == init.
   Let time := beat_time beat0 script.
-  Variables (c0 c : smchart) (keys : Z).
+  Variables (c : smchart) (keys : Z).
   Hypothesis Hrows : c_bpms c = rows.
   Hypothesis Hkeys : ref_keys (c_type c) = Some keys.
+  Hypothesis Hgk : get_keys cf (c_type c) = Some keys.
   Hypothesis Hcols : forallb (fun e : Q * Z * Z => (0 <=? snd (fst e))%Z && (snd (fst e) <? keys)%Z) (chart_events cf c) = true.
   Hypothesis Hlens : forallb (fun h : Q * Z * Q => Qlt_bool 0 (snd h)) (c_holds c ++ c_rolls c) = true.
   Hypothesis Hdisj : longs_disjoint (c_holds c ++ c_rolls c) = true.
   Hypothesis Htimes : forallb (fun e : Q * Z * Z => time_okb cf init l (fst (fst e))) (chart_events cf c) = true.
-  Hypothesis Hdist : distinct_bc (map (fun e : Q * Z * Z => (spec_beat init l (fst (fst e)), snd (fst e))) (chart_events cf c)) = true.
-  Hypothesis Hexact : exact_measures cf (spec_placed cf init l c) = true.
 
   Lemma Kmet : k_metronome cf = 4%Z. Proof. rewrite Hcf. reflexivity. Qed.
   Lemma Kcap : k_max_snap cf = 384%Z. Proof. rewrite Hcf. reflexivity. Qed.
@@ -229,73 +258,165 @@ Section ChartThm.
   Qed.
   Lemma ps_ok : Forall (fun p => pl_ok keys p /\ (0 <= p_measure p)%Z) ps.
   Proof. apply Forall_forall. intros p Hp. unfold ps in Hp. apply in_map_iff in Hp. destruct Hp as [e [<- He]]. apply (place_ok e He). Qed.
-
   Lemma ps_dens_pos m : Forall (fun y => 0 < y)%Z (map p_den (gm ps m)).
   Proof.
     apply Forall_forall. intros y Hy. apply in_map_iff in Hy. destruct Hy as [p [<- Hp]]. apply filter_In in Hp. destruct Hp as [Hp _].
     pose proof ps_ok as H. rewrite Forall_forall in H. destruct (H p Hp) as [[[? ?] _] _]. lia.
   Qed.
-
-  Lemma place_divides e : In e evs -> (p_den (placeE e) | dm_of cf ps (p_measure (placeE e)))%Z.
-  Proof.
-    intro He. set (p := placeE e). set (m := p_measure p).
-    assert (Hp: In p ps) by (unfold ps; apply in_map; exact He).
-    assert (Hm: In m (measures_of ps)) by (apply measures_of_in; apply in_map; exact Hp).
-    pose proof Hexact as Hx. rewrite ps_eq in Hx. unfold exact_measures in Hx. rewrite forallb_forall in Hx. specialize (Hx m Hm). apply Z.leb_le in Hx.
-    unfold dm_of. refine (proj2 (den_max_exact cf (map p_den (gm ps m)) (p_den p) (ps_dens_pos m) _ Hx)).
-    apply in_map. unfold gm. apply filter_In. split; [exact Hp|apply Z.eqb_refl].
-  Qed.
-
   Lemma dm_of_pos m : (0 < dm_of cf ps m)%Z.
   Proof. apply (dm_pos cf Kcap_pos keys ps keys_pos ps_ok). Qed.
 
-  Definition ev_cell (e : Q * Z * Z) : cellev := (bt (fst (fst e)), Z.to_nat (snd (fst e)), snd e).
-  (* exactness: the cell of an event carries the event's beat itself *)
-  Lemma cellof_ev e : In e evs -> cellof cf ps (placeE e) = ev_cell e.
+  (* ---- the written cell and the written beat of an event ---- *)
+  Definition mE (e : Q * Z * Z) : Z := p_measure (placeE e).
+  Definition dmE (e : Q * Z * Z) : Z := dm_of cf ps (mE e).
+  Definition rowE (e : Q * Z * Z) : Z := (p_num (placeE e) * dmE e / p_den (placeE e))%Z.
+  Definition wbE (e : Q * Z * Z) : Q := wbeat (mE e) (dmE e) (rowE e).
+  Definition wcell (e : Q * Z * Z) : cellev := (wbE e, Z.to_nat (snd (fst e)), snd e).
+  Definition cellE (e : Q * Z * Z) : Z * Z * Z := (mE e, rowE e, snd (fst e)).
+  Lemma wcell_eq e : cellof cf ps (placeE e) = wcell e.
+  Proof. reflexivity. Qed.
+  Lemma cellE_eq e : cell_of_placed cf ps (placeE e) = cellE e.
+  Proof. reflexivity. Qed.
+
+  Lemma rowE_range e : In e evs -> (0 <= rowE e < dmE e)%Z.
+  Proof. intro He. apply (pl_row_range keys (dmE e) keys_pos (dm_of_pos _) _ (proj1 (place_ok e He))). Qed.
+  Lemma wbE_range e : In e evs -> inject_Z (4 * mE e) <= wbE e /\ wbE e < inject_Z (4 * (mE e + 1)).
+  Proof. intro He. apply wbeat_range; [apply dm_of_pos|apply (rowE_range e He)]. Qed.
+
+  Lemma den_cases e : In e evs -> (p_den (placeE e) | dmE e)%Z \/ dmE e = 384%Z.
   Proof.
-    intro He. unfold cellof, mcell, ev_cell.
-    pose proof (place_wbeat_exact cf Kmet (bt (fst (fst e))) (snd (fst e)) (snd e) _ (bt_canon _) (place_divides e He) (dm_of_pos _)) as E.
-    unfold placeE in *. rewrite E. reflexivity.
+    intro He. set (p := placeE e). set (m := mE e).
+    assert (Hp: In p ps) by (unfold ps; apply in_map; exact He).
+    assert (Hin: In (p_den p) (map p_den (gm ps m))).
+    { apply in_map. unfold gm. apply filter_In. split; [exact Hp|apply Z.eqb_refl]. }
+    unfold dmE, dm_of. fold m.
+    pose proof (den_max_le_cap cf (map p_den (gm ps m))) as Hle. rewrite Kcap in Hle.
+    destruct (Z.eq_dec (den_max_of cf (map p_den (gm ps m))) 384) as [E|N]; [right; exact E|left].
+    apply (den_max_below_cap_divides cf Kcap_pos _ _ (ps_dens_pos m)); [rewrite Kcap; lia|exact Hin].
   Qed.
 
-  Definition bcE (e : Q * Z * Z) : Q * Z := (bt (fst (fst e)), snd (fst e)).
-  Lemma evs_distinct : ForallOrdPairs (fun x y => ~ same_bc (bcE x) (bcE y)) evs.
-  Proof. apply (proj1 (FOP_map bcE (fun x y => ~ same_bc x y) evs)). apply distinct_bc_FOP. rewrite evs_eq in Hdist. exact Hdist. Qed.
+  (* the written beat is the event's beat rounded down to the row grid of its measure: exact when the row count is the
+     true lcm, less than one 384th of a measure early when the cap was hit *)
+  Lemma wbE_bound e : In e evs ->
+    wbE e <= bt (fst (fst e)) /\ bt (fst (fst e)) < wbE e + (4 # 384)
+    /\ ((p_den (placeE e) | dmE e)%Z -> wbE e = bt (fst (fst e))).
+  Proof.
+    intro He. destruct (place_position cf (bt (fst (fst e))) (snd (fst e)) (snd e) Kmet) as [Hden [Hnum [Hpos _]]].
+    fold (placeE e) in Hden, Hnum, Hpos. fold (mE e) in Hpos.
+    pose proof (dm_of_pos (mE e)) as Hdm. fold (dmE e) in Hdm.
+    assert (Hex: (p_den (placeE e) | dmE e)%Z -> wbE e = bt (fst (fst e))).
+    { intro Hdiv. apply (place_wbeat_exact cf Kmet (bt (fst (fst e))) (snd (fst e)) (snd e) (dmE e) (bt_canon _) Hdiv Hdm). }
+    split; [|split; [|exact Hex]].
+    - destruct (row_truncation_bound (p_num (placeE e)) (p_den (placeE e)) (dmE e) Hden Hdm (proj1 Hnum)) as [L _].
+      fold (rowE e) in L. unfold wbE. rewrite wbeat_val, !inject_Z_mult. change (inject_Z 4) with 4.
+      pose proof (inj_pos _ Hdm) as Hdm'.
+      setoid_replace (4 * inject_Z (rowE e) / inject_Z (dmE e)) with (4 * (inject_Z (rowE e) / inject_Z (dmE e))) by (field; lra).
+      rewrite Hpos in L. set (r := inject_Z (rowE e) / inject_Z (dmE e)) in *.
+      assert (E4: (bt (fst (fst e)) - 4 * inject_Z (mE e)) / 4 * 4 == bt (fst (fst e)) - 4 * inject_Z (mE e)) by field.
+      pose proof (Qmult_le_compat_r _ _ 4 L ltac:(lra)) as L4. rewrite E4 in L4. lra.
+    - destruct (den_cases e He) as [Hdiv|E384].
+      + rewrite (Hex Hdiv). lra.
+      + destruct (row_truncation_bound (p_num (placeE e)) (p_den (placeE e)) (dmE e) Hden Hdm (proj1 Hnum)) as [_ U].
+        fold (rowE e) in U. unfold wbE. rewrite wbeat_val, !inject_Z_mult. change (inject_Z 4) with 4.
+        rewrite E384 in *. change (inject_Z 384) with 384 in *. rewrite Hpos in U.
+        assert (E4: (bt (fst (fst e)) - 4 * inject_Z (mE e)) / 4 * 4 == bt (fst (fst e)) - 4 * inject_Z (mE e)) by field.
+        pose proof (Qmult_lt_compat_r _ _ 4 ltac:(lra) U) as U4. rewrite E4 in U4.
+        setoid_replace ((inject_Z (rowE e) + 1) / 384 * 4) with (4 * inject_Z (rowE e) / 384 + (4 # 384)) in U4 by field. lra.
+  Qed.
 
-  Lemma ps_nodup m : NoDup (map (fun p => (prow (dm_of cf ps m) p, pcol p)) (gm ps m)).
+  Lemma rows_cross e e' : In e evs -> In e' evs -> mE e = mE e' -> bt (fst (fst e)) <= bt (fst (fst e')) -> (rowE e <= rowE e')%Z.
+  Proof.
+    intros He He' Em Hb.
+    destruct (place_position cf (bt (fst (fst e))) (snd (fst e)) (snd e) Kmet) as [Hden [Hnum [Hpos _]]].
+    destruct (place_position cf (bt (fst (fst e'))) (snd (fst e')) (snd e') Kmet) as [Hden' [Hnum' [Hpos' _]]].
+    fold (placeE e) in Hden, Hnum, Hpos. fold (mE e) in Hpos. fold (placeE e') in Hden', Hnum', Hpos'. fold (mE e') in Hpos'. rewrite <- Em in Hpos'.
+    assert (Hq: inject_Z (p_num (placeE e)) / inject_Z (p_den (placeE e)) <= inject_Z (p_num (placeE e')) / inject_Z (p_den (placeE e'))).
+    { rewrite Hpos, Hpos'. apply div_le_cross; lra. }
+    pose proof (inj_pos _ Hden) as D1. pose proof (inj_pos _ Hden') as D2.
+    assert (Hc: inject_Z (p_num (placeE e)) * inject_Z (p_den (placeE e')) <= inject_Z (p_num (placeE e')) * inject_Z (p_den (placeE e))).
+    { assert (P0: 0 <= inject_Z (p_den (placeE e)) * inject_Z (p_den (placeE e'))) by (apply Qmult_le_0_compat; lra).
+      pose proof (Qmult_le_compat_r _ _ _ Hq P0) as G.
+      setoid_replace (inject_Z (p_num (placeE e)) / inject_Z (p_den (placeE e)) * (inject_Z (p_den (placeE e)) * inject_Z (p_den (placeE e'))))
+        with (inject_Z (p_num (placeE e)) * inject_Z (p_den (placeE e'))) in G by (field; lra).
+      setoid_replace (inject_Z (p_num (placeE e')) / inject_Z (p_den (placeE e')) * (inject_Z (p_den (placeE e)) * inject_Z (p_den (placeE e'))))
+        with (inject_Z (p_num (placeE e')) * inject_Z (p_den (placeE e))) in G by (field; lra).
+      exact G. }
+    rewrite <- !inject_Z_mult, <- Zle_Qle in Hc.
+    unfold rowE, dmE. rewrite <- Em. pose proof (dm_of_pos (mE e)) as Hdm. set (dm := dm_of cf ps (mE e)) in *.
+    apply Z.div_le_lower_bound; [lia|].
+    pose proof (Z.mul_div_le (p_num (placeE e) * dm) (p_den (placeE e)) ltac:(lia)) as M.
+    set (r := (p_num (placeE e) * dm / p_den (placeE e))%Z) in *.
+    assert (G: (p_den (placeE e) * (p_den (placeE e') * r) <= p_den (placeE e) * (p_num (placeE e') * dm))%Z) by nia.
+    apply Z.mul_le_mono_pos_l in G; lia.
+  Qed.
+
+  Lemma mE_mono e e' : bt (fst (fst e)) <= bt (fst (fst e')) -> (mE e <= mE e')%Z.
+  Proof.
+    intro Hb. destruct (place_position cf (bt (fst (fst e))) (snd (fst e)) (snd e) Kmet) as [_ [_ [_ Hm]]].
+    destruct (place_position cf (bt (fst (fst e'))) (snd (fst e')) (snd e') Kmet) as [_ [_ [_ Hm']]].
+    unfold mE, placeE. rewrite Hm, Hm'. apply Qfloor_resp_le. apply div_le_cross; lra.
+  Qed.
+
+  Lemma wbE_mono e e' : In e evs -> In e' evs -> bt (fst (fst e)) <= bt (fst (fst e')) -> wbE e <= wbE e'.
+  Proof.
+    intros He He' Hb. pose proof (mE_mono e e' Hb) as Hm.
+    destruct (Z.eq_dec (mE e) (mE e')) as [Em|Nm].
+    - assert (Ed: dmE e' = dmE e) by (unfold dmE; rewrite Em; reflexivity).
+      unfold wbE. rewrite <- Em, Ed. apply wbeat_le; [apply dm_of_pos|apply (rows_cross e e' He He' Em Hb)].
+    - destruct (wbE_range e He) as [_ U]. destruct (wbE_range e' He') as [L _].
+      assert (inject_Z (4 * (mE e + 1)) <= inject_Z (4 * mE e')) by (rewrite <- Zle_Qle; lia). lra.
+  Qed.
+  Lemma wbE_inj e e' : In e evs -> In e' evs -> wbE e == wbE e' -> mE e = mE e' /\ rowE e = rowE e'.
+  Proof.
+    intros He He' E. destruct (wbE_range e He) as [L U]. destruct (wbE_range e' He') as [L' U'].
+    assert (Em: mE e = mE e').
+    { destruct (Z.lt_trichotomy (mE e) (mE e')) as [H|[H|H]]; [|exact H|].
+      - assert (inject_Z (4 * (mE e + 1)) <= inject_Z (4 * mE e')) by (rewrite <- Zle_Qle; lia). lra.
+      - assert (inject_Z (4 * (mE e' + 1)) <= inject_Z (4 * mE e)) by (rewrite <- Zle_Qle; lia). lra. }
+    split; [exact Em|]. assert (Ed: dmE e' = dmE e) by (unfold dmE; rewrite Em; reflexivity).
+    unfold wbE in E. rewrite <- Em, Ed in E. pose proof (dm_of_pos (mE e)) as Hdm. fold (dmE e) in Hdm.
+    destruct (Z.lt_trichotomy (rowE e) (rowE e')) as [H|[H|H]]; [|exact H|].
+    - pose proof (wbeat_lt (mE e) _ _ _ Hdm H). lra.
+    - pose proof (wbeat_lt (mE e) _ _ _ Hdm H). lra.
+  Qed.
+
+  (* ================= with pairwise distinct cells (the common core of the exact and the cap regime) ================= *)
+  Definition CELLS : Prop := distinct_cells (map (cell_of_placed cf ps) ps) = true.
+
+  Lemma evs_distinct (HC : CELLS) : ForallOrdPairs (fun x y => cellE x <> cellE y) evs.
+  Proof.
+    unfold CELLS, ps in HC. rewrite map_map in HC. apply distinct_cells_FOP in HC.
+    apply (proj1 (FOP_map cellE (fun x y => x <> y) evs)). exact HC.
+  Qed.
+
+  Lemma ps_nodup (HC : CELLS) m : NoDup (map (fun p => (prow (dm_of cf ps m) p, pcol p)) (gm ps m)).
   Proof.
     unfold gm, ps. rewrite filter_map_comm, map_map.
-    apply (FOP_nodup _ (fun x y => same_bc (bcE x) (bcE y))); [apply FOP_filter; exact evs_distinct|].
+    apply (FOP_nodup _ (fun x y => cellE x = cellE y)); [apply FOP_filter; exact (evs_distinct HC)|].
     intros x y Hx Hy Hkey. apply filter_In in Hx, Hy. destruct Hx as [Hx Mx], Hy as [Hy My]. apply Z.eqb_eq in Mx, My.
-    injection Hkey as Hr Hc.
-    pose proof (cellof_ev x Hx) as Cx. pose proof (cellof_ev y Hy) as Cy. unfold cellof, mcell, ev_cell in Cx, Cy. rewrite Mx in Cx. rewrite My in Cy.
-    assert (Bx := f_equal (fun t : cellev => fst (fst t)) Cx). assert (By := f_equal (fun t : cellev => fst (fst t)) Cy). cbn [fst] in Bx, By.
-    destruct (place_ok x Hx) as [Okx _]. destruct (place_ok y Hy) as [Oky _].
-    pose proof (pl_row_range keys (dm_of cf ps m) keys_pos (dm_of_pos m) _ Okx). pose proof (pl_row_range keys (dm_of cf ps m) keys_pos (dm_of_pos m) _ Oky).
-    unfold prow in Hr. change (map placeE evs) with ps in Hr. assert (Er: (p_num (placeE x) * dm_of cf ps m / p_den (placeE x) = p_num (placeE y) * dm_of cf ps m / p_den (placeE y))%Z) by lia.
-    split; unfold bcE; cbn [fst snd].
-    - rewrite <- Bx, <- By, Er. reflexivity.
-    - unfold pcol in Hc. cbn [placeE place p_col] in Hc. pose proof (ev_col x Hx). pose proof (ev_col y Hy). lia.
+    injection Hkey as Hr Hc. change (map placeE evs) with ps in Hr.
+    pose proof (rowE_range x Hx) as Rx. pose proof (rowE_range y Hy) as Ry. unfold rowE, dmE, mE in Rx, Ry. rewrite Mx in Rx. rewrite My in Ry.
+    unfold cellE, rowE, dmE, mE. rewrite Mx, My. unfold prow in Hr. unfold pcol in Hc. cbn [placeE place p_col] in Hc.
+    pose proof (ev_col x Hx). pose proof (ev_col y Hy). f_equal; [f_equal|]; lia.
   Qed.
 
   (* ---- the stream: cells of simple notes, heads and tails ---- *)
   Let K := Z.to_nat keys.
-  Definition cellS (ch : Z) (n : Q * Z) : cellev := (bt (fst n), Z.to_nat (snd n), ch).
-  Definition mk_ln (k : kind) (h : Q * Z * Q) : lnote :=
-    mkLn k (Z.to_nat (snd (fst h))) (bt (fst (fst h))) (bt (Qred (fst (fst h) + snd h))).
+  Definition mk_ln (k : kind) (hch : Z) (h : Q * Z * Q) : lnote :=
+    mkLn k (Z.to_nat (snd (fst h))) (wbE (head_ev hch h)) (wbE (tail_ev 51 h)).
   Definition simp : list (kind * cellev) :=
-    map (fun n => (KHit, cellS 49 n)) (c_hits c) ++ map (fun n => (KFake, cellS 70 n)) (c_fakes c)
-    ++ map (fun n => (KKey, cellS 75 n)) (c_keys c) ++ map (fun n => (KLift, cellS 76 n)) (c_lifts c)
-    ++ map (fun n => (KMine, cellS 77 n)) (c_mines c).
-  Definition lns : list lnote := map (mk_ln KHold) (c_holds c) ++ map (mk_ln KRoll) (c_rolls c).
+    map (fun n => (KHit, wcell (simple_ev 49 n))) (c_hits c) ++ map (fun n => (KFake, wcell (simple_ev 70 n))) (c_fakes c)
+    ++ map (fun n => (KKey, wcell (simple_ev 75 n))) (c_keys c) ++ map (fun n => (KLift, wcell (simple_ev 76 n))) (c_lifts c)
+    ++ map (fun n => (KMine, wcell (simple_ev 77 n))) (c_mines c).
+  Definition lns : list lnote := map (mk_ln KHold 50) (c_holds c) ++ map (mk_ln KRoll 52) (c_rolls c).
 
-  Definition sS (ch : Z) (x : list (Q * Z)) : list cellev := map (cellS ch) x.
-  Definition sH (ch : Z) (x : list (Q * Z * Q)) : list cellev := map (fun h => (bt (fst (fst h)), Z.to_nat (snd (fst h)), ch)) x.
-  Definition sT (x : list (Q * Z * Q)) : list cellev := map (fun h => (bt (Qred (fst (fst h) + snd h)), Z.to_nat (snd (fst h)), 51%Z)) x.
+  Definition sS (ch : Z) (x : list (Q * Z)) : list cellev := map (fun n => wcell (simple_ev ch n)) x.
+  Definition sH (ch : Z) (x : list (Q * Z * Q)) : list cellev := map (fun h => wcell (head_ev ch h)) x.
+  Definition sT (x : list (Q * Z * Q)) : list cellev := map (fun h => wcell (tail_ev 51 h)) x.
 
-  Lemma evs_cells_perm : Permutation (map ev_cell evs) (map snd simp ++ map ln_head lns ++ map ln_tail lns).
+  Lemma evs_cells_perm : Permutation (map wcell evs) (map snd simp ++ map ln_head lns ++ map ln_tail lns).
   Proof.
-    assert (E1: map ev_cell evs = sS 49 (c_hits c) ++ sH 50 (c_holds c) ++ sT (c_holds c) ++ sH 52 (c_rolls c) ++ sT (c_rolls c)
+    assert (E1: map wcell evs = sS 49 (c_hits c) ++ sH 50 (c_holds c) ++ sT (c_holds c) ++ sH 52 (c_rolls c) ++ sT (c_rolls c)
                                  ++ sS 70 (c_fakes c) ++ sS 75 (c_keys c) ++ sS 76 (c_lifts c) ++ sS 77 (c_mines c)).
     { unfold evs. rewrite !map_app, !map_map. reflexivity. }
     assert (E2: map snd simp = sS 49 (c_hits c) ++ sS 70 (c_fakes c) ++ sS 75 (c_keys c) ++ sS 76 (c_lifts c) ++ sS 77 (c_mines c)).
@@ -325,69 +446,68 @@ Section ChartThm.
   Proof. destruct evs_heads_tails as [rest P]. intro H. apply (Permutation_in _ (Permutation_sym P)). apply in_or_app. left. exact H. Qed.
   Lemma tails_in x : In x tails -> In x evs.
   Proof. destruct evs_heads_tails as [rest P]. intro H. apply (Permutation_in _ (Permutation_sym P)). apply in_or_app. right. apply in_or_app. left. exact H. Qed.
-  Lemma head_tail_distinct x y : In x heads -> In y tails -> ~ same_bc (bcE x) (bcE y).
+  Lemma head_tail_distinct (HC : CELLS) x y : In x heads -> In y tails -> cellE x <> cellE y.
   Proof.
     destruct evs_heads_tails as [rest P]. intros Hx Hy.
-    assert (F: ForallOrdPairs (fun x y => ~ same_bc (bcE x) (bcE y)) (heads ++ tails ++ rest)).
-    { apply (FOP_perm _ (fun a b (H : ~ same_bc (bcE a) (bcE b)) (G : same_bc (bcE b) (bcE a)) =>
-                            H (conj (Qeq_sym _ _ (proj1 G)) (eq_sym (proj2 G)))) _ _ P evs_distinct). }
+    assert (F: ForallOrdPairs (fun x y => cellE x <> cellE y) (heads ++ tails ++ rest)).
+    { apply (FOP_perm _ (fun a b (H : cellE a <> cellE b) (G : cellE b = cellE a) => H (eq_sym G)) _ _ P (evs_distinct HC)). }
     apply (FOP_app_in _ _ _ x y F Hx). apply in_or_app. left. exact Hy.
   Qed.
   Lemma bt_mono_ev x y : In x evs -> In y evs -> fst (fst x) <= fst (fst y) -> bt (fst (fst x)) <= bt (fst (fst y)).
   Proof. intros Hx Hy. apply (proj2 (proj2 beats_facts)); apply ev_in_os; assumption. Qed.
-  Lemma head_before_tail x y : In x heads -> In y tails -> snd (fst x) = snd (fst y) -> fst (fst x) <= fst (fst y) ->
-    bt (fst (fst x)) < bt (fst (fst y)).
+  Lemma head_before_tail (HC : CELLS) x y : In x heads -> In y tails -> snd (fst x) = snd (fst y) -> fst (fst x) <= fst (fst y) ->
+    wbE x < wbE y.
   Proof.
-    intros Hx Hy Ec Hle. pose proof (bt_mono_ev x y (heads_in x Hx) (tails_in y Hy) Hle) as L.
-    destruct (Qle_lt_or_eq _ _ L) as [G|G]; [exact G|]. exfalso. apply (head_tail_distinct x y Hx Hy). split; [exact G|exact Ec].
+    intros Hx Hy Ec Hle. pose proof (wbE_mono x y (heads_in x Hx) (tails_in y Hy) (bt_mono_ev x y (heads_in x Hx) (tails_in y Hy) Hle)) as L.
+    destruct (Qle_lt_or_eq _ _ L) as [G|G]; [exact G|]. exfalso. apply (head_tail_distinct HC x y Hx Hy).
+    destruct (wbE_inj x y (heads_in x Hx) (tails_in y Hy) G) as [E1 E2]. unfold cellE. rewrite E1, E2, Ec. reflexivity.
   Qed.
-  Lemma tail_before_head x y : In x heads -> In y tails -> snd (fst x) = snd (fst y) -> fst (fst y) <= fst (fst x) ->
-    bt (fst (fst y)) < bt (fst (fst x)).
+  Lemma tail_before_head (HC : CELLS) x y : In x heads -> In y tails -> snd (fst x) = snd (fst y) -> fst (fst y) <= fst (fst x) ->
+    wbE y < wbE x.
   Proof.
-    intros Hx Hy Ec Hle. pose proof (bt_mono_ev y x (tails_in y Hy) (heads_in x Hx) Hle) as L.
-    destruct (Qle_lt_or_eq _ _ L) as [G|G]; [exact G|]. exfalso. apply (head_tail_distinct x y Hx Hy). split; [symmetry; exact G|exact Ec].
+    intros Hx Hy Ec Hle. pose proof (wbE_mono y x (tails_in y Hy) (heads_in x Hx) (bt_mono_ev y x (tails_in y Hy) (heads_in x Hx) Hle)) as L.
+    destruct (Qle_lt_or_eq _ _ L) as [G|G]; [exact G|]. exfalso. apply (head_tail_distinct HC x y Hx Hy).
+    destruct (wbE_inj y x (tails_in y Hy) (heads_in x Hx) G) as [E1 E2]. unfold cellE. rewrite E1, E2, Ec. reflexivity.
   Qed.
 
-  (* tagged long notes *)
-  Definition TL : list (kind * (Q * Z * Q)) := map (pair KHold) (c_holds c) ++ map (pair KRoll) (c_rolls c).
-  Lemma lns_TL : lns = map (fun kh : kind * (Q * Z * Q) => mk_ln (fst kh) (snd kh)) TL.
+  (* tagged long notes: kind, head character, note *)
+  Definition TL : list (kind * Z * (Q * Z * Q)) := map (pair (KHold, 50%Z)) (c_holds c) ++ map (pair (KRoll, 52%Z)) (c_rolls c).
+  Lemma lns_TL : lns = map (fun kh : kind * Z * (Q * Z * Q) => mk_ln (fst (fst kh)) (snd (fst kh)) (snd kh)) TL.
   Proof. unfold lns, TL. rewrite map_app, !map_map. reflexivity. Qed.
   Lemma TL_snd : map snd TL = c_holds c ++ c_rolls c.
   Proof. unfold TL. rewrite map_app, !map_map, !map_id. reflexivity. Qed.
   Lemma TL_facts kh : In kh TL ->
-    (fst kh = KHold \/ fst kh = KRoll) /\ 0 < snd (snd kh)
-    /\ exists x y, In x heads /\ In y tails /\ fst x = fst (snd kh) /\ fst y = (Qred (fst (fst (snd kh)) + snd (snd kh)), snd (fst (snd kh))).
+    (fst (fst kh) = KHold \/ fst (fst kh) = KRoll) /\ 0 < snd (snd kh)
+    /\ In (head_ev (snd (fst kh)) (snd kh)) heads /\ In (tail_ev 51 (snd kh)) tails.
   Proof.
     intro H. assert (Hl: 0 < snd (snd kh)).
     { rewrite forallb_forall in Hlens. apply Qlt_bool_iff. apply Hlens. rewrite <- TL_snd. apply in_map. exact H. }
     unfold TL in H. apply in_app_or in H. destruct H as [H|H]; apply in_map_iff in H; destruct H as [h [<- Hh]]; cbn [fst snd].
-    - split; [left; reflexivity|]. split; [exact Hl|]. exists (head_ev 50 h), (tail_ev 51 h).
-      split; [unfold heads; apply in_or_app; left; apply in_map; exact Hh|]. split; [unfold tails; apply in_or_app; left; apply in_map; exact Hh|].
-      split; [destruct h as [[o cl] ln]; reflexivity|reflexivity].
-    - split; [right; reflexivity|]. split; [exact Hl|]. exists (head_ev 52 h), (tail_ev 51 h).
-      split; [unfold heads; apply in_or_app; right; apply in_map; exact Hh|]. split; [unfold tails; apply in_or_app; right; apply in_map; exact Hh|].
-      split; [destruct h as [[o cl] ln]; reflexivity|reflexivity].
+    - split; [left; reflexivity|]. split; [exact Hl|].
+      split; [unfold heads; apply in_or_app; left; apply in_map; exact Hh|unfold tails; apply in_or_app; left; apply in_map; exact Hh].
+    - split; [right; reflexivity|]. split; [exact Hl|].
+      split; [unfold heads; apply in_or_app; right; apply in_map; exact Hh|unfold tails; apply in_or_app; right; apply in_map; exact Hh].
   Qed.
 
-  Lemma lns_ok : Forall (fun a => (ln_kind a = KHold \/ ln_kind a = KRoll) /\ ln_hb a < ln_tb a) lns.
+  Lemma lns_ok (HC : CELLS) : Forall (fun a => (ln_kind a = KHold \/ ln_kind a = KRoll) /\ ln_hb a < ln_tb a) lns.
   Proof.
     rewrite lns_TL. apply Forall_forall. intros a Ha. apply in_map_iff in Ha. destruct Ha as [kh [<- Hkh]].
-    destruct (TL_facts kh Hkh) as [Hk [Hl [x [y [Hx [Hy [Ex Ey]]]]]]]. cbn [mk_ln ln_kind ln_hb ln_tb]. split; [exact Hk|].
-    pose proof (head_before_tail x y Hx Hy) as HB. rewrite Ex, Ey in HB. cbn [fst snd] in HB. apply HB; [reflexivity|]. rewrite Qred_correct. lra.
+    destruct (TL_facts kh Hkh) as [Hk [Hl [Hx Hy]]]. cbn [mk_ln ln_kind ln_hb ln_tb]. split; [exact Hk|].
+    apply (head_before_tail HC _ _ Hx Hy); [reflexivity|]. cbn [head_ev tail_ev fst snd]. rewrite Qred_correct. lra.
   Qed.
 
-  Lemma lns_disjoint : ForallOrdPairs (fun a b => ln_col a = ln_col b -> ln_tb a < ln_hb b \/ ln_tb b < ln_hb a) lns.
+  Lemma lns_disjoint (HC : CELLS) : ForallOrdPairs (fun a b => ln_col a = ln_col b -> ln_tb a < ln_hb b \/ ln_tb b < ln_hb a) lns.
   Proof.
     rewrite lns_TL. apply FOP_map.
-    assert (F: ForallOrdPairs (fun a b : kind * (Q * Z * Q) => long_disj (snd a) (snd b)) TL).
+    assert (F: ForallOrdPairs (fun a b : kind * Z * (Q * Z * Q) => long_disj (snd a) (snd b)) TL).
     { apply (proj1 (FOP_map snd long_disj TL)). rewrite TL_snd. apply longs_disjoint_FOP. exact Hdisj. }
     apply (FOP_impl_in _ _ _ F). intros a b Ha Hb Hd Ecol. cbn [mk_ln ln_col ln_hb ln_tb] in *.
-    destruct (TL_facts a Ha) as [_ [_ [xa [ya [Hxa [Hya [Exa Eya]]]]]]]. destruct (TL_facts b Hb) as [_ [_ [xb [yb [Hxb [Hyb [Exb Eyb]]]]]]].
+    destruct (TL_facts a Ha) as [_ [_ [Hxa Hya]]]. destruct (TL_facts b Hb) as [_ [_ [Hxb Hyb]]].
     assert (Ec: snd (fst (snd a)) = snd (fst (snd b))).
-    { pose proof (ev_col xa (heads_in xa Hxa)) as C1. pose proof (ev_col xb (heads_in xb Hxb)) as C2. rewrite Exa in C1. rewrite Exb in C2. lia. }
+    { pose proof (ev_col _ (heads_in _ Hxa)) as C1. pose proof (ev_col _ (heads_in _ Hxb)) as C2. cbn [head_ev fst snd] in C1, C2. lia. }
     destruct (Hd Ec) as [D|D].
-    - left. pose proof (tail_before_head xb ya Hxb Hya) as T. rewrite Exb, Eya in T. cbn [fst snd] in T. apply T; [symmetry; exact Ec|]. rewrite Qred_correct. lra.
-    - right. pose proof (tail_before_head xa yb Hxa Hyb) as T. rewrite Exa, Eyb in T. cbn [fst snd] in T. apply T; [exact Ec|]. rewrite Qred_correct. lra.
+    - left. apply (tail_before_head HC _ _ Hxb Hya); [cbn [head_ev tail_ev fst snd]; symmetry; exact Ec|]. cbn [head_ev tail_ev fst snd]. rewrite Qred_correct. lra.
+    - right. apply (tail_before_head HC _ _ Hxa Hyb); [cbn [head_ev tail_ev fst snd]; exact Ec|]. cbn [head_ev tail_ev fst snd]. rewrite Qred_correct. lra.
   Qed.
 
   Lemma simp_syms : Forall (fun kx : kind * cellev => lookup_sym (cch (snd kx)) = Some (fst kx)) simp.
@@ -395,36 +515,32 @@ Section ChartThm.
     unfold simp. rewrite !Forall_app. repeat split; apply Forall_forall; intros kx H; apply in_map_iff in H; destruct H as [n [<- _]]; reflexivity.
   Qed.
 
-  Definition S : list cellev := map (cellof cf ps) (cscan cf keys ps (measures_of ps)).
-  Lemma S_perm : Permutation S (map ev_cell evs).
+  Definition strm : list cellev := map (cellof cf ps) (cscan cf keys ps (measures_of ps)).
+  Lemma strm_perm : Permutation strm (map wcell evs).
   Proof.
-    unfold S. eapply perm_trans; [apply Permutation_map; apply (cscan_perm cf Kcap_pos keys ps keys_pos ps_ok)|].
-    unfold ps. rewrite map_map. assert (E: map (fun x => cellof cf (map placeE evs) (placeE x)) evs = map ev_cell evs).
-    { apply map_ext_in. intros e He. apply (cellof_ev e He). }
-    rewrite E. apply Permutation_refl.
+    unfold strm. eapply perm_trans; [apply Permutation_map; apply (cscan_perm cf Kcap_pos keys ps keys_pos ps_ok)|].
+    unfold ps. rewrite map_map. apply Permutation_refl.
   Qed.
-  Lemma S_cols : Forall (fun x => (ccol x < K)%nat) S.
+  Lemma strm_cols : Forall (fun x => (ccol x < K)%nat) strm.
   Proof.
-    apply Forall_forall. intros x Hx. apply (Permutation_in _ S_perm) in Hx. apply in_map_iff in Hx. destruct Hx as [e [<- He]].
-    unfold ev_cell, ccol, K. cbn [fst snd]. pose proof (ev_col e He). lia.
+    apply Forall_forall. intros x Hx. apply (Permutation_in _ strm_perm) in Hx. apply in_map_iff in Hx. destruct Hx as [e [<- He]].
+    unfold wcell, ccol, K. cbn [fst snd]. pose proof (ev_col e He). lia.
   Qed.
 
-  Lemma stream_runs : exists op acc, run time S (repeat None K, []) = Some (op, acc)
+  Lemma stream_runs (HC : CELLS) : exists op acc, run time strm (repeat None K, []) = Some (op, acc)
      /\ Forall (fun o => o = None) op
      /\ Permutation acc (map (fun kx : kind * cellev => simple_note time (fst kx) (snd kx)) simp ++ map (ln_note time) lns).
   Proof.
     apply run_stream.
-    - apply (cscan_sorted cf Kcap_pos keys ps keys_pos ps_ok ps_nodup).
-    - eapply perm_trans; [apply S_perm|apply evs_cells_perm].
+    - apply (cscan_sorted cf Kcap_pos keys ps keys_pos ps_ok (ps_nodup HC)).
+    - eapply perm_trans; [apply strm_perm|apply evs_cells_perm].
     - apply simp_syms.
-    - apply lns_ok.
-    - apply lns_disjoint.
-    - apply S_cols.
+    - apply (lns_ok HC).
+    - apply (lns_disjoint HC).
+    - apply strm_cols.
   Qed.
 
-  (* ---- conclusion ---- *)
-  Hypothesis Hgk : get_keys cf (c_type c) = Some keys.
-
+  (* ---- conclusion, general form: per kind, the denoted notes are a permutation of the chart's notes at their WRITTEN beats ---- *)
   Lemma dnotes_of_app k a b : dnotes_of k (a ++ b) = dnotes_of k a ++ dnotes_of k b.
   Proof. unfold dnotes_of. rewrite filter_app, map_app. reflexivity. Qed.
   Lemma dnotes_of_seg {A} k k' (fc : A -> Z) (ft fl : A -> Q) (x : list A) :
@@ -434,46 +550,26 @@ Section ChartThm.
     destruct (kind_eqb k' k) eqn:E; cbn [map dn_col dn_time dn_len]; [f_equal|]; exact IH.
   Qed.
 
-  Lemma time_bt o : In o os -> time (bt o) == o.
-  Proof.
-    intro Ho. unfold time. apply (beat_time_exact cf rows init l Hscript Htd script beat0 o (bt o) (bt o) Hsc Hb0); [|reflexivity].
-    apply (proj1 (proj2 beats_facts) o Ho).
-  Qed.
+  Definition wsimple (ch : Z) (x : list (Q * Z)) : list note4 :=
+    map (fun n => (Z.of_nat (Z.to_nat (snd n)), time (wbE (simple_ev ch n)), 0)) x.
+  Definition wlong (hch : Z) (x : list (Q * Z * Q)) : list note4 :=
+    map (fun h => (Z.of_nat (Z.to_nat (snd (fst h))), time (wbE (head_ev hch h)), Qred (time (wbE (tail_ev 51 h)) - time (wbE (head_ev hch h))))) x.
+  Definition wlist (k : kind) : list note4 :=
+    match k with
+    | KHit => wsimple 49 (c_hits c) | KHold => wlong 50 (c_holds c) | KRoll => wlong 52 (c_rolls c) | KMine => wsimple 77 (c_mines c)
+    | KLift => wsimple 76 (c_lifts c) | KFake => wsimple 70 (c_fakes c) | KKey => wsimple 75 (c_keys c)
+    end.
 
-  Lemma simple_seg_eqv ch (x : list (Q * Z)) : (forall n, In n x -> In (simple_ev ch n) evs) ->
-    Forall2 note_eqv (map (fun n => (Z.of_nat (ccol (cellS ch n)), time (cbeat (cellS ch n)), 0)) x) (simple4 x).
-  Proof.
-    intro H. unfold simple4. apply forall2_map_l. apply forall2_map_r. induction x as [|n x IH]; constructor.
-    - specialize (H n (or_introl eq_refl)). unfold note_eqv, cellS, ccol, cbeat. cbn [fst snd]. split; [|split; [|reflexivity]].
-      + pose proof (ev_col _ H) as Hc. cbn [simple_ev fst snd] in Hc. lia.
-      + pose proof (time_bt _ (ev_in_os _ H)) as Ht. cbn [simple_ev fst snd] in Ht. exact Ht.
-    - apply IH. intros m Hm. apply H. right. exact Hm.
-  Qed.
-  Lemma long_seg_eqv k (x : list (Q * Z * Q)) : (forall h, In h x -> In (k, h) TL) ->
-    Forall2 note_eqv (map (fun h => (Z.of_nat (ln_col (mk_ln k h)), time (ln_hb (mk_ln k h)), Qred (time (ln_tb (mk_ln k h)) - time (ln_hb (mk_ln k h))))) x) (hold4 x).
-  Proof.
-    intro H. unfold hold4. apply forall2_map_l. apply forall2_map_r. induction x as [|h x IH]; constructor.
-    - destruct (TL_facts (k, h) (H h (or_introl eq_refl))) as [_ [_ [xe [ye [Hx [Hy [Ex Ey]]]]]]]. cbn [fst snd] in Ex, Ey.
-      unfold note_eqv, mk_ln. cbn [fst snd ln_col ln_hb ln_tb].
-      pose proof (ev_col _ (heads_in _ Hx)) as Hc. rewrite Ex in Hc.
-      pose proof (time_bt _ (ev_in_os _ (heads_in _ Hx))) as T1. rewrite Ex in T1.
-      pose proof (time_bt _ (ev_in_os _ (tails_in _ Hy))) as T2. rewrite Ey in T2. cbn [fst] in T2.
-      split; [lia|]. split; [exact T1|]. rewrite Qred_correct, T1, T2, Qred_correct. ring.
-    - apply IH. intros m Hm. apply H. right. exact Hm.
-  Qed.
-
-  Lemma in_evs_seg (P : (Q * Z * Z) -> Prop) : forall e, In e evs -> In e evs. Proof. auto. Qed.
-
-  Theorem chart_thm :
+  Theorem chart_thm_gen (HC : CELLS) :
     exists body, chart_body cf current c = Some body
       /\ (body = [] \/ (head_nows body /\ head_nows (rev body))) /\ forallb bodych body = true
       /\ exists op notes ns,
            denote_measures (match body with [] => [] | _ => split_on 44 body end) keys 0 time (repeat None (Z.to_nat keys)) [] [] = Some (op, notes, ns)
            /\ forallb (fun o : option (kind * Q) => match o with None => true | Some _ => false end) op = true
-           /\ forall k, perm_eqv (dnotes_of k (rev notes)) (chart_list c k).
+           /\ forall k, Permutation (dnotes_of k (rev notes)) (wlist k).
   Proof.
-    destruct stream_runs as [op [acc [R1 [R2 R3]]]].
-    destruct (chart_body_denote cf Kmet Kcap_pos time keys ps keys_pos ps_ok ps_nodup) as [out [W1 W2]]. cbv zeta in W2.
+    destruct (stream_runs HC) as [op [acc [R1 [R2 R3]]]].
+    destruct (chart_body_denote cf Kmet Kcap_pos time keys ps keys_pos ps_ok (ps_nodup HC)) as [out [W1 W2]]. cbv zeta in W2.
     destruct W2 as [B1 [B2 [B3 B4]]].
     exists (join [10%Z; 44%Z; 10%Z] out). split; [|split; [|split]].
     - unfold chart_body. rewrite chart_placed_eq, Hgk, W1. reflexivity.
@@ -487,24 +583,199 @@ Section ChartThm.
         assert (P: Permutation (dnotes_of k (rev acc)) (dnotes_of k (SN ++ LN))).
         { unfold dnotes_of. apply Permutation_map. apply Permutation_filter'.
           eapply perm_trans; [apply Permutation_sym; apply Permutation_rev|exact R3]. }
-        eexists. split; [exact P|].
+        eapply perm_trans; [exact P|].
         unfold SN, LN, simp, lns. rewrite !map_app, !map_map. rewrite !dnotes_of_app.
-        unfold simple_note, ln_note. cbn [fst snd mk_ln ln_kind ln_col ln_hb ln_tb].
+        unfold simple_note, ln_note. cbn [fst snd mk_ln ln_kind ln_col ln_hb ln_tb wcell ccol cbeat].
         rewrite !(dnotes_of_seg k).
-        assert (I1: forall n, In n (c_hits c) -> In (simple_ev 49 n) evs) by (intros n Hn; unfold evs; apply in_or_app; left; apply in_map; exact Hn).
-        assert (I2: forall n, In n (c_fakes c) -> In (simple_ev 70 n) evs) by (intros n Hn; unfold evs; do 5 (apply in_or_app; right); apply in_or_app; left; apply in_map; exact Hn).
-        assert (I3: forall n, In n (c_keys c) -> In (simple_ev 75 n) evs) by (intros n Hn; unfold evs; do 6 (apply in_or_app; right); apply in_or_app; left; apply in_map; exact Hn).
-        assert (I4: forall n, In n (c_lifts c) -> In (simple_ev 76 n) evs) by (intros n Hn; unfold evs; do 7 (apply in_or_app; right); apply in_or_app; left; apply in_map; exact Hn).
-        assert (I5: forall n, In n (c_mines c) -> In (simple_ev 77 n) evs) by (intros n Hn; unfold evs; do 8 (apply in_or_app; right); apply in_map; exact Hn).
-        assert (I6: forall h, In h (c_holds c) -> In (KHold, h) TL) by (intros h Hh; unfold TL; apply in_or_app; left; apply in_map; exact Hh).
-        assert (I7: forall h, In h (c_rolls c) -> In (KRoll, h) TL) by (intros h Hh; unfold TL; apply in_or_app; right; apply in_map; exact Hh).
-        destruct k; cbn [kind_eqb chart_list app]; rewrite ?app_nil_r.
-        * apply (simple_seg_eqv 49 _ I1).
-        * apply (long_seg_eqv KHold _ I6).
-        * apply (long_seg_eqv KRoll _ I7).
-        * apply (simple_seg_eqv 77 _ I5).
-        * apply (simple_seg_eqv 76 _ I4).
-        * apply (simple_seg_eqv 70 _ I2).
-        * apply (simple_seg_eqv 75 _ I3).
+        destruct k; cbn [kind_eqb wlist app]; rewrite ?app_nil_r; apply Permutation_refl.
   Qed.
+
+  Lemma time_bt o : In o os -> time (bt o) == o.
+  Proof.
+    intro Ho. unfold time. apply (beat_time_exact cf rows init l Hscript Htd script beat0 o (bt o) (bt o) Hsc Hb0); [|reflexivity].
+    apply (proj1 (proj2 beats_facts) o Ho).
+  Qed.
+
+  (* ================= the exact regime ================= *)
+  Section ExactRegime.
+    Hypothesis Hdist : distinct_bc (map (fun e : Q * Z * Z => (spec_beat init l (fst (fst e)), snd (fst e))) (chart_events cf c)) = true.
+    Hypothesis Hexact : exact_measures cf (spec_placed cf init l c) = true.
+
+    Lemma place_divides e : In e evs -> (p_den (placeE e) | dmE e)%Z.
+    Proof.
+      intro He. set (p := placeE e). set (m := mE e).
+      assert (Hp: In p ps) by (unfold ps; apply in_map; exact He).
+      assert (Hm: In m (measures_of ps)) by (apply measures_of_in; apply in_map_iff; exists p; split; [reflexivity|exact Hp]).
+      pose proof Hexact as Hx. rewrite ps_eq in Hx. unfold exact_measures in Hx. rewrite forallb_forall in Hx. specialize (Hx m Hm). apply Z.leb_le in Hx.
+      unfold dmE, dm_of. fold m. refine (proj2 (den_max_exact cf (map p_den (gm ps m)) (p_den p) (ps_dens_pos m) _ Hx)).
+      apply in_map. unfold gm. apply filter_In. split; [exact Hp|apply Z.eqb_refl].
+    Qed.
+    (* exactness: the written beat of an event is the event's beat itself *)
+    Lemma wbE_exact e : In e evs -> wbE e = bt (fst (fst e)).
+    Proof. intro He. apply (proj2 (proj2 (wbE_bound e He))). apply (place_divides e He). Qed.
+
+    Definition bcE (e : Q * Z * Z) : Q * Z := (bt (fst (fst e)), snd (fst e)).
+    Lemma exact_cells : CELLS.
+    Proof.
+      unfold CELLS, ps. rewrite map_map. apply FOP_distinct_cells. apply FOP_map.
+      assert (F: ForallOrdPairs (fun x y => ~ same_bc (bcE x) (bcE y)) evs).
+      { apply (proj1 (FOP_map bcE (fun x y => ~ same_bc x y) evs)). apply distinct_bc_FOP. rewrite evs_eq in Hdist. exact Hdist. }
+      apply (FOP_impl_in _ _ _ F). intros x y Hx Hy Hn E. apply Hn. rewrite !cellE_eq in E. unfold cellE in E. injection E as E1 E2 E3.
+      split; unfold bcE; cbn [fst snd]; [|exact E3].
+      rewrite <- (wbE_exact x Hx), <- (wbE_exact y Hy). unfold wbE, dmE. rewrite E1, E2. reflexivity.
+    Qed.
+
+    Lemma simple_seg_eqv ch (x : list (Q * Z)) : (forall n, In n x -> In (simple_ev ch n) evs) -> Forall2 note_eqv (wsimple ch x) (simple4 x).
+    Proof.
+      intro H. unfold wsimple, simple4. apply forall2_map_l. apply forall2_map_r. induction x as [|n x IH]; constructor.
+      - specialize (H n (or_introl eq_refl)). unfold note_eqv. cbn [fst snd]. split; [|split; [|reflexivity]].
+        + pose proof (ev_col _ H) as Hc. cbn [simple_ev fst snd] in Hc. lia.
+        + rewrite (wbE_exact _ H). pose proof (time_bt _ (ev_in_os _ H)) as Ht. cbn [simple_ev fst snd] in Ht |- *. exact Ht.
+      - apply IH. intros m Hm. apply H. right. exact Hm.
+    Qed.
+    Lemma long_seg_eqv hch (x : list (Q * Z * Q)) : (forall h, In h x -> In (head_ev hch h) heads /\ In (tail_ev 51 h) tails) ->
+      Forall2 note_eqv (wlong hch x) (hold4 x).
+    Proof.
+      intro H. unfold wlong, hold4. apply forall2_map_l. apply forall2_map_r. induction x as [|h x IH]; constructor.
+      - destruct (H h (or_introl eq_refl)) as [Hx Hy]. unfold note_eqv. cbn [fst snd].
+        pose proof (ev_col _ (heads_in _ Hx)) as Hc. cbn [head_ev fst snd] in Hc.
+        rewrite (wbE_exact _ (heads_in _ Hx)), (wbE_exact _ (tails_in _ Hy)).
+        pose proof (time_bt _ (ev_in_os _ (heads_in _ Hx))) as T1. pose proof (time_bt _ (ev_in_os _ (tails_in _ Hy))) as T2.
+        cbn [head_ev tail_ev fst snd] in T1, T2 |- *.
+        split; [lia|]. split; [exact T1|]. rewrite Qred_correct, T1, T2, Qred_correct. ring.
+      - apply IH. intros m Hm. apply H. right. exact Hm.
+    Qed.
+
+    Lemma wlist_eqv k : Forall2 note_eqv (wlist k) (chart_list c k).
+    Proof.
+      assert (I1: forall n, In n (c_hits c) -> In (simple_ev 49 n) evs) by (intros n Hn; unfold evs; apply in_or_app; left; apply in_map; exact Hn).
+      assert (I2: forall n, In n (c_fakes c) -> In (simple_ev 70 n) evs) by (intros n Hn; unfold evs; do 5 (apply in_or_app; right); apply in_or_app; left; apply in_map; exact Hn).
+      assert (I3: forall n, In n (c_keys c) -> In (simple_ev 75 n) evs) by (intros n Hn; unfold evs; do 6 (apply in_or_app; right); apply in_or_app; left; apply in_map; exact Hn).
+      assert (I4: forall n, In n (c_lifts c) -> In (simple_ev 76 n) evs) by (intros n Hn; unfold evs; do 7 (apply in_or_app; right); apply in_or_app; left; apply in_map; exact Hn).
+      assert (I5: forall n, In n (c_mines c) -> In (simple_ev 77 n) evs) by (intros n Hn; unfold evs; do 8 (apply in_or_app; right); apply in_map; exact Hn).
+      assert (I6: forall h, In h (c_holds c) -> In (head_ev 50 h) heads /\ In (tail_ev 51 h) tails).
+      { intros h Hh. split; [unfold heads|unfold tails]; apply in_or_app; left; apply in_map; exact Hh. }
+      assert (I7: forall h, In h (c_rolls c) -> In (head_ev 52 h) heads /\ In (tail_ev 51 h) tails).
+      { intros h Hh. split; [unfold heads|unfold tails]; apply in_or_app; right; apply in_map; exact Hh. }
+      destruct k; cbn [wlist chart_list].
+      - apply (simple_seg_eqv 49 _ I1).
+      - apply (long_seg_eqv 50 _ I6).
+      - apply (long_seg_eqv 52 _ I7).
+      - apply (simple_seg_eqv 77 _ I5).
+      - apply (simple_seg_eqv 76 _ I4).
+      - apply (simple_seg_eqv 70 _ I2).
+      - apply (simple_seg_eqv 75 _ I3).
+    Qed.
+
+    (* no two notes of one kind with the same column and time *)
+    Lemma seg_keys_distinct {A} (ev : A -> Q * Z * Z) (f : A -> note4) (x : list A) :
+      (forall a, fst (fst (f a)) = snd (fst (ev a)) /\ snd (fst (f a)) = fst (fst (ev a))) ->
+      ForallOrdPairs (fun x y => ~ same_bc (bcE x) (bcE y)) (map ev x) -> ForallOrdPairs keys_differ (map f x).
+    Proof.
+      intros Hf F. apply FOP_map. apply (proj1 (FOP_map ev _ x)) in F.
+      apply (FOP_impl_in _ _ _ F). intros a b _ _ Hn [E1 E2]. apply Hn. destruct (Hf a) as [A1 A2]. destruct (Hf b) as [B1 B2].
+      unfold same_bc, bcE. cbn [fst snd]. rewrite <- A1, <- B1, <- A2, <- B2. split; [|exact E1].
+      unfold bt. rewrite (spec_beat_comp init l _ _ E2). reflexivity.
+    Qed.
+    Lemma evs_bc_distinct : ForallOrdPairs (fun x y => ~ same_bc (bcE x) (bcE y)) evs.
+    Proof. apply (proj1 (FOP_map bcE (fun x y => ~ same_bc x y) evs)). apply distinct_bc_FOP. rewrite evs_eq in Hdist. exact Hdist. Qed.
+    Lemma chart_keys_distinct k : ForallOrdPairs keys_differ (chart_list c k).
+    Proof.
+      pose proof evs_bc_distinct as F. unfold evs in F.
+      pose proof (FOP_app_l _ _ _ F) as F1. apply FOP_app_r in F.
+      pose proof (FOP_app_l _ _ _ F) as F2. apply FOP_app_r in F. apply FOP_app_r in F.
+      pose proof (FOP_app_l _ _ _ F) as F4. apply FOP_app_r in F. apply FOP_app_r in F.
+      pose proof (FOP_app_l _ _ _ F) as F6. apply FOP_app_r in F.
+      pose proof (FOP_app_l _ _ _ F) as F7. apply FOP_app_r in F.
+      pose proof (FOP_app_l _ _ _ F) as F8. apply FOP_app_r in F.
+      destruct k; cbn [chart_list]; unfold simple4, hold4.
+      - apply (seg_keys_distinct (simple_ev 49) (fun n : Q * Z => (snd n, fst n, 0)) _ (fun a => conj eq_refl eq_refl) F1).
+      - apply (seg_keys_distinct (head_ev 50) (fun n : Q * Z * Q => (snd (fst n), fst (fst n), snd n)) _ (fun a => conj eq_refl eq_refl) F2).
+      - apply (seg_keys_distinct (head_ev 52) (fun n : Q * Z * Q => (snd (fst n), fst (fst n), snd n)) _ (fun a => conj eq_refl eq_refl) F4).
+      - apply (seg_keys_distinct (simple_ev 77) (fun n : Q * Z => (snd n, fst n, 0)) _ (fun a => conj eq_refl eq_refl) F).
+      - apply (seg_keys_distinct (simple_ev 76) (fun n : Q * Z => (snd n, fst n, 0)) _ (fun a => conj eq_refl eq_refl) F8).
+      - apply (seg_keys_distinct (simple_ev 70) (fun n : Q * Z => (snd n, fst n, 0)) _ (fun a => conj eq_refl eq_refl) F6).
+      - apply (seg_keys_distinct (simple_ev 75) (fun n : Q * Z => (snd n, fst n, 0)) _ (fun a => conj eq_refl eq_refl) F7).
+    Qed.
+
+    Theorem chart_thm :
+      exists body, chart_body cf current c = Some body
+        /\ (body = [] \/ (head_nows body /\ head_nows (rev body))) /\ forallb bodych body = true
+        /\ exists op notes ns,
+             denote_measures (match body with [] => [] | _ => split_on 44 body end) keys 0 time (repeat None (Z.to_nat keys)) [] [] = Some (op, notes, ns)
+             /\ forallb (fun o : option (kind * Q) => match o with None => true | Some _ => false end) op = true
+             /\ forall k, perm_eqv (dnotes_of k (rev notes)) (chart_list c k).
+    Proof.
+      destruct (chart_thm_gen exact_cells) as [body [B1 [B2 [B3 [op [notes [ns [D [Ho Hp]]]]]]]]].
+      exists body. split; [exact B1|]. split; [exact B2|]. split; [exact B3|]. exists op, notes, ns. split; [exact D|]. split; [exact Ho|].
+      intro k. exists (wlist k). split; [apply Hp|apply wlist_eqv].
+    Qed.
+  End ExactRegime.
+
+  (* ================= the cap regime ================= *)
+  Section CapRegime.
+    Hypothesis Hcap_cells : distinct_cells (map (cell_of_placed cf (spec_placed cf init l c)) (spec_placed cf init l c)) = true.
+    Lemma cap_cells : CELLS.
+    Proof. unfold CELLS. rewrite <- ps_eq. exact Hcap_cells. Qed.
+
+    Lemma time_cap w : time w == cap_time init l w.
+    Proof.
+      unfold time, beat_time, cap_time. rewrite Qred_correct.
+      apply (time_of_eqv cf rows init l Hscript Htd script beat0 _ _ Hsc Hb0). split; reflexivity.
+    Qed.
+    Lemma cap_row e : In e evs -> cap_row_of init l (fst (fst e)) (wbE e).
+    Proof. intro He. destruct (wbE_bound e He) as [A [B _]]. split; assumption. Qed.
+
+    Lemma simple_seg_cap ch (x : list (Q * Z)) : (forall n, In n x -> In (simple_ev ch n) evs) -> Forall2 (cap_note_rel init l) (wsimple ch x) (simple4 x).
+    Proof.
+      intro H. unfold wsimple, simple4. apply forall2_map_l. apply forall2_map_r. induction x as [|n x IH]; constructor.
+      - specialize (H n (or_introl eq_refl)). unfold cap_note_rel. cbn [fst snd]. split.
+        + pose proof (ev_col _ H) as Hc. cbn [simple_ev fst snd] in Hc. lia.
+        + exists (wbE (simple_ev ch n)). split; [apply (cap_row _ H)|]. split; [apply time_cap|left; split; reflexivity].
+      - apply IH. intros m Hm. apply H. right. exact Hm.
+    Qed.
+    Lemma long_seg_cap hch (x : list (Q * Z * Q)) : (forall h, In h x -> In (head_ev hch h) heads /\ In (tail_ev 51 h) tails) ->
+      Forall2 (cap_note_rel init l) (wlong hch x) (hold4 x).
+    Proof.
+      intro H. unfold wlong, hold4. apply forall2_map_l. apply forall2_map_r. induction x as [|h x IH]; constructor.
+      - destruct (H h (or_introl eq_refl)) as [Hx Hy]. unfold cap_note_rel. cbn [fst snd].
+        pose proof (ev_col _ (heads_in _ Hx)) as Hc. cbn [head_ev fst snd] in Hc. split; [lia|].
+        exists (wbE (head_ev hch h)). split; [apply (cap_row _ (heads_in _ Hx))|]. split; [apply time_cap|right].
+        exists (wbE (tail_ev 51 h)). split; [apply (cap_row _ (tails_in _ Hy))|]. rewrite Qred_correct, !time_cap. reflexivity.
+      - apply IH. intros m Hm. apply H. right. exact Hm.
+    Qed.
+    Lemma wlist_cap k : Forall2 (cap_note_rel init l) (wlist k) (chart_list c k).
+    Proof.
+      assert (I1: forall n, In n (c_hits c) -> In (simple_ev 49 n) evs) by (intros n Hn; unfold evs; apply in_or_app; left; apply in_map; exact Hn).
+      assert (I2: forall n, In n (c_fakes c) -> In (simple_ev 70 n) evs) by (intros n Hn; unfold evs; do 5 (apply in_or_app; right); apply in_or_app; left; apply in_map; exact Hn).
+      assert (I3: forall n, In n (c_keys c) -> In (simple_ev 75 n) evs) by (intros n Hn; unfold evs; do 6 (apply in_or_app; right); apply in_or_app; left; apply in_map; exact Hn).
+      assert (I4: forall n, In n (c_lifts c) -> In (simple_ev 76 n) evs) by (intros n Hn; unfold evs; do 7 (apply in_or_app; right); apply in_or_app; left; apply in_map; exact Hn).
+      assert (I5: forall n, In n (c_mines c) -> In (simple_ev 77 n) evs) by (intros n Hn; unfold evs; do 8 (apply in_or_app; right); apply in_map; exact Hn).
+      assert (I6: forall h, In h (c_holds c) -> In (head_ev 50 h) heads /\ In (tail_ev 51 h) tails).
+      { intros h Hh. split; [unfold heads|unfold tails]; apply in_or_app; left; apply in_map; exact Hh. }
+      assert (I7: forall h, In h (c_rolls c) -> In (head_ev 52 h) heads /\ In (tail_ev 51 h) tails).
+      { intros h Hh. split; [unfold heads|unfold tails]; apply in_or_app; right; apply in_map; exact Hh. }
+      destruct k; cbn [wlist chart_list].
+      - apply (simple_seg_cap 49 _ I1).
+      - apply (long_seg_cap 50 _ I6).
+      - apply (long_seg_cap 52 _ I7).
+      - apply (simple_seg_cap 77 _ I5).
+      - apply (simple_seg_cap 76 _ I4).
+      - apply (simple_seg_cap 70 _ I2).
+      - apply (simple_seg_cap 75 _ I3).
+    Qed.
+
+    Theorem chart_thm_cap :
+      exists body, chart_body cf current c = Some body
+        /\ (body = [] \/ (head_nows body /\ head_nows (rev body))) /\ forallb bodych body = true
+        /\ exists op notes ns,
+             denote_measures (match body with [] => [] | _ => split_on 44 body end) keys 0 time (repeat None (Z.to_nat keys)) [] [] = Some (op, notes, ns)
+             /\ forallb (fun o : option (kind * Q) => match o with None => true | Some _ => false end) op = true
+             /\ forall k, exists a', Permutation (dnotes_of k (rev notes)) a' /\ Forall2 (cap_note_rel init l) a' (chart_list c k).
+    Proof.
+      destruct (chart_thm_gen cap_cells) as [body [B1 [B2 [B3 [op [notes [ns [D [Ho Hp]]]]]]]]].
+      exists body. split; [exact B1|]. split; [exact B2|]. split; [exact B3|]. exists op, notes, ns. split; [exact D|]. split; [exact Ho|].
+      intro k. exists (wlist k). split; [apply Hp|apply wlist_cap].
+    Qed.
+  End CapRegime.
 End ChartThm.
